@@ -9,6 +9,8 @@ pub fn run(prop: &str, tier: &str) -> Option<Report> {
         "C02" => crate::e2_checks::c02(tier),
         "C03" => crate::e2_checks::c03(tier),
         "C04" => crate::e2_checks::c04(tier),
+        "C05" => crate::e2_checks2::c05(tier),
+        "C18" => crate::e2_checks2::c18(tier),
         "C01" => crate::c01::c01(tier),
         "C14" => crate::c14::c14(tier),
         "C20" => crate::c20::c20(tier),
